@@ -86,6 +86,15 @@ struct World {
     fid_port: HashMap<u32, u64>,
     peer_reset: std::collections::HashSet<(usize, usize)>,
     answered: std::collections::HashSet<(usize, usize)>,
+    /// Conservative shadow of "this flow id is in use at endpoint e": ids whose stream is known to be
+    /// established at e and held by the application (`est`: id -> handle), ids e has proposed in a
+    /// Connect that is still unanswered (`pend`: id -> req), Connects delivered to e and not yet
+    /// accepted (`inc`: port -> id). Entries are removed on anything that might end the flow, so an
+    /// entry present means the id IS in use (the monitors that consult them can only under-report).
+    drawn_seen: [usize; 2],
+    est: [HashMap<u32, usize>; 2],
+    pend: [HashMap<u32, u64>; 2],
+    inc: [HashMap<u64, u32>; 2],
 }
 
 const NAMES: [&str; 2] = ["A", "B"];
@@ -153,6 +162,10 @@ impl World {
             fid_port: HashMap::new(),
             peer_reset: std::collections::HashSet::new(),
             answered: std::collections::HashSet::new(),
+            drawn_seen: [0, 0],
+            est: [HashMap::new(), HashMap::new()],
+            pend: [HashMap::new(), HashMap::new()],
+            inc: [HashMap::new(), HashMap::new()],
         };
         for v in &mut w.view {
             v.mux_alive = true;
@@ -203,9 +216,28 @@ impl World {
 
     #[allow(clippy::too_many_lines)]
     fn observe(&mut self, e: usize, t: &[&str], out: &str) {
+        // flow-id reuse is noticed when the id is drawn (the frame that carries it may be held back
+        // by the sink): an id the generator hands out that has already appeared in a frame
+        if !self.reused && t[0] != "rng" {
+            let n = self.drawn_seen[e];
+            let drawn: Vec<u32> = self.sims[e].rng.drawn.lock().map(|d| d[n.min(d.len())..].to_vec()).unwrap_or_default();
+            self.drawn_seen[e] += drawn.len();
+            if std::env::var("PVH_DBG").is_ok() { eprintln!("drawn {e} {:x?} seen {:x?}", drawn, self.seen_ids); }
+            if drawn.iter().any(|id| self.seen_ids.contains(id)) {
+                self.reused = true;
+            }
+        }
         let (res, evs) = out.split_once(" | ").unwrap_or((out, ""));
         let res_t: Vec<&str> = res.split(' ').collect();
         let clean = !self.injected;
+        // while the sink holds frames back, the wire lags behind the flow table: the in-use shadow
+        // is not maintained then (nor on the stimulus that releases the held frames)
+        let lagging = self.sink_blocked[e] || matches!(t[0], "sinkblock" | "sinkgrant" | "sinkunblock");
+        if lagging {
+            self.est[e].clear();
+            self.pend[e].clear();
+            self.inc[e].clear();
+        }
         match (t[0], res_t.as_slice()) {
             ("open", ["started"]) => {
                 let req: u64 = t[1].parse().unwrap();
@@ -217,6 +249,7 @@ impl World {
                 let req: u64 = t[1].parse().unwrap();
                 self.view[e].opens.remove(&req);
                 self.cancelled = true;
+                self.pend[e].clear();
             }
             ("accept", ["stream", h, host, port]) => {
                 let h: usize = h.parse().unwrap();
@@ -245,6 +278,9 @@ impl World {
                 }
                 self.view[e].handles[h] = hi;
                 self.exchanged = true;
+                if let Some(id) = self.inc[e].remove(&port) {
+                    self.est[e].insert(id, h);
+                }
             }
             ("write" | "writev", r) => {
                 let h: usize = t[1].parse().unwrap();
@@ -312,6 +348,10 @@ impl World {
             }
             ("dropstream", ["unit"]) => {
                 let h: usize = t[1].parse().unwrap();
+                // the notification is matched by flow id only (known finding): forget everything
+                self.est[e].clear();
+                self.pend[e].clear();
+                self.inc[e].clear();
                 self.view[e].handles[h].alive = false;
                 if !self.view[e].handles[h].shutdown {
                     self.aborted.insert((e, h), true);
@@ -384,12 +424,89 @@ impl World {
             ("dropmux", ["unit"]) => {
                 self.view[e].mux_alive = false;
                 self.view[e].terminated_by = Some("dropmux".into());
+                self.est[e].clear();
+                self.pend[e].clear();
+                self.inc[e].clear();
             }
             ("deliver", _) => {
                 if matches!(t[1], "err" | "eof" | "close") {
                     self.view[e].terminated_by = Some(t[1].into());
                     self.faulted = true;
                     self.ep_faulted[e] = true;
+                }
+                if t[1] != "bin" || !frame_valid(t[2]) {
+                    if !matches!(t[1], "ping" | "pong") {
+                        self.est[e].clear();
+                        self.pend[e].clear();
+                        self.inc[e].clear();
+                    }
+                } else if let Some((op, id, p)) = parse_frame(t[2]) {
+                    let evl: Vec<&str> = evs.split("; ").filter(|s| !s.is_empty()).collect();
+                    let reset_id = format!("wire {}", hexd(&[&[0x72u8][..], &id.to_be_bytes()[..]].concat()));
+                    let in_use = self.est[e].contains_key(&id) || self.pend[e].contains_key(&id) || self.inc[e].values().any(|v| *v == id);
+                    let up = !self.view[e].exited && self.view[e].terminated_by.is_none();
+                    if op == 6 && up && !evl.is_empty() {
+                        // C11: a datagram is queued for the application or dropped; nothing else happens
+                        let msg = format!("endpoint {} reacted to the datagram frame {} with: {}", NAMES[e], t[2], evl.join("; "));
+                        self.fail("C11", "dgram-disturbs", msg);
+                    }
+                    match op {
+                        0 if in_use && up => {
+                            // C07 / C10: a Connect whose id is in use is answered with a Reset and nothing else
+                            // happens (the Reset may be held back by a blocked sink)
+                            let ok = evl.len() <= 1 && evl.iter().all(|x| **x == reset_id);
+                            if !ok {
+                                let how = if self.pend[e].contains_key(&id) { "a pending open request" } else { "an established stream" };
+                                let msg = format!("endpoint {} received a Connect on flow {id:08x}, which is in use by {how}; besides the rejecting Reset it did: {}", NAMES[e], evl.join("; "));
+                                // recorded without the reuse suffix: the flow that owns the id is current
+                                // (for an established stream this is also C06: the id is not free while the
+                                // application holds the stream)
+                                let props: &[&str] = if self.pend[e].contains_key(&id) { &["C07", "C10"] } else { &["C07", "C10", "C06"] };
+                                for prop in props.iter().copied() {
+                                    if !self.fails.iter().any(|f| f.0 == prop && f.1 == "collision-disturbs-existing") {
+                                        self.fails.push((prop.into(), "collision-disturbs-existing".into(), msg.clone()));
+                                    }
+                                }
+                            }
+                        }
+                        0 => {
+                            if p.len() >= 6 && up && evl.iter().all(|x| !x.starts_with("wire 72")) {
+                                self.inc[e].insert(u64::from(u16::from_be_bytes([p[4], p[5]])), id);
+                            }
+                        }
+                        4 => {
+                            if let Some(h) = self.est[e].get(&id).copied() {
+                                let hi = &self.view[e].handles[h];
+                                if clean && !self.reused && up && hi.alive && !hi.eof && evl.contains(&reset_id.as_str()) {
+                                    let msg = format!("endpoint {} reset flow {id:08x} on receiving a Push although its application holds the stream open for reading and both ends are conforming endpoints (receive window overrun)", NAMES[e]);
+                                    self.fail("C03", "reset-for-overrun", msg);
+                                }
+                            }
+                        }
+                        1 => {
+                            // the answer to e's Connect: the handle is learnt at `opendone`
+                            if let Some(req) = self.pend[e].remove(&id) {
+                                for ev in &evl {
+                                    let et: Vec<&str> = ev.split(' ').collect();
+                                    if let ["opendone", r, "ok", h] = et.as_slice() {
+                                        if r.parse::<u64>().ok() == Some(req) {
+                                            if let Ok(h) = h.parse::<usize>() { self.est[e].insert(id, h); }
+                                        }
+                                    }
+                                }
+                            }
+                        }
+                        _ => {}
+                    }
+                    // an established flow stays in the table through Finish in either direction (until
+                    // the application drops the stream or a Reset passes)
+                    if op == 2 {
+                        self.est[e].remove(&id);
+                    }
+                    if matches!(op, 2 | 3 | 5) {
+                        self.pend[e].remove(&id);
+                        self.inc[e].retain(|_, v| *v != id);
+                    }
                 }
                 if t[1] == "bin" {
                     match parse_frame(t[2]) {
@@ -431,9 +548,22 @@ impl World {
                                 self.fail("C03", "window-exceeded", msg);
                             }
                         }
+                        if op == 2 {
+                            self.est[e].remove(&id);
+                        }
+                        if op == 2 || op == 3 {
+                            self.pend[e].remove(&id);
+                            self.inc[e].retain(|_, v| *v != id);
+                        }
                         if op == 0 {
                             if let Some((_, _, p)) = parse_frame(m) {
-                                if p.len() >= 6 { self.fid_port.insert(id, u64::from(u16::from_be_bytes([p[4], p[5]]))); }
+                                if p.len() >= 6 {
+                                    let port = u64::from(u16::from_be_bytes([p[4], p[5]]));
+                                    self.fid_port.insert(id, port);
+                                    if let Some((oe, req)) = self.open_ports.get(&port).copied() {
+                                        if oe == e && self.view[e].opens.contains_key(&req) { self.pend[e].insert(id, req); }
+                                    }
+                                }
                             }
                             // a new Connect from e: accounting for this id restarts
                             self.credit[e].remove(&id);
@@ -475,6 +605,7 @@ impl World {
                 }
                 ["opendone", req, _other] => {
                     let req: u64 = req.parse().unwrap();
+                    self.pend[e].retain(|_, r| *r != req);
                     if self.view[e].opens.remove(&req).is_none() {
                         self.fail("C07", "open-twice", format!("open request {req} resolved twice"));
                     }
@@ -507,6 +638,9 @@ impl World {
                 }
                 ["exit", r] => {
                     self.view[e].exited = true;
+                    self.est[e].clear();
+                    self.pend[e].clear();
+                    self.inc[e].clear();
                     if t[0] == "deliver" && t.get(1) == Some(&"bin") && t.get(2).and_then(|h| parse_frame(h)).is_some_and(|f| f.0 == 6)
                         && self.view[e].terminated_by.is_none() {
                         // the datagram was sent by the peer endpoint through `send_datagram` or injected well-formed
@@ -524,6 +658,11 @@ impl World {
                 }
                 _ => {}
             }
+        }
+        if lagging {
+            self.est[e].clear();
+            self.pend[e].clear();
+            self.inc[e].clear();
         }
     }
 
@@ -577,7 +716,8 @@ impl World {
             && !self.aborted.contains_key(&(pe, ph)) && !self.aborted.contains_key(&(e, h));
         if clean_finish && self.view[e].handles[h].read != peer.written {
             let msg = format!("{}#{h} read end-of-stream after {} bytes but peer {}#{ph} wrote {} bytes before finishing", NAMES[e], self.view[e].handles[h].read.len(), NAMES[pe], peer.written.len());
-            self.fail("C05", "eof-before-data", msg);
+            self.fail("C05", "eof-before-data", msg.clone());
+            self.fail("C02", "eos-not-equal", msg);
         }
     }
 }
@@ -763,7 +903,9 @@ fn run_case(r: &mut Rng, focus: Focus, len: usize) -> World {
             if r.chance(3, 5) {
                 let hl = match r.below(8) { 0 => 0, 1 => 255, 2 => 256, 3 => r.range(257, 300) as usize, _ => r.range(1, 12) as usize };
                 let dl = match r.below(6) { 0 => 0, 1 => 1, 2 => 2, 3 => 3, 4 => r.range(4, 40) as usize, _ => r.range(41, 2000) as usize };
-                let fid = if r.chance(1, 5) { 0 } else { r.range(1, 9) };
+                // under C11 half of the datagrams carry the flow id of a stream (the two id spaces overlap)
+                let stream_ids: Vec<u32> = if focus == Focus::C11 { let mut v: Vec<u32> = w.fid_port.keys().copied().collect(); v.sort_unstable(); v } else { vec![] };
+                let fid = if !stream_ids.is_empty() && r.chance(1, 2) { u64::from(*r.pick(&stream_ids)) } else if r.chance(1, 5) { 0 } else { r.range(1, 9) };
                 w.stim(e, &[s("dgsend"), s(fid), hexd(&r.bytes(hl)), s(r.range(0, 65535)), hexd(&r.bytes(dl))]);
             } else {
                 w.stim(e, &[s("dgrecv")]);
@@ -1110,8 +1252,20 @@ fn main() {
         let rp = if v.get("replay").is_some() { &v["replay"] } else { &v };
         let lines: Vec<String> = rp["lines"].as_array().expect("lines").iter().map(|x| x.as_str().unwrap().to_string()).collect();
         let w = replay_lines(&lines).expect("replayable");
-        for st in &w.steps {
+        // with `--driver`: the model's answer next to the implementation's wherever they differ
+        let model: Option<Vec<String>> = args.driver.as_deref().and_then(|p| Driver::spawn(p, &[]).ok()).map(|mut d| {
+            let mut reqs = vec!["reset".to_string()];
+            reqs.extend(w.header_lines());
+            reqs.extend(w.steps.iter().map(|s| s.line.clone()));
+            d.batch(&reqs)
+        });
+        for (i, st) in w.steps.iter().enumerate() {
             println!("{:<60} => {}", st.line, st.out);
+            if let Some(m) = &model {
+                if canon_model(&m[i + 3]) != canon_model(&st.out) {
+                    println!("{:<60} MODEL: {}", "", m[i + 3]);
+                }
+            }
         }
         let mine: Vec<_> = w.fails.iter().filter(|f| f.0 == focus.name()).collect();
         for f in &mine {
@@ -1146,7 +1300,8 @@ fn main() {
         // under C06 (abort/reuse) the byte-level and EOF monitors also count: state of one stream
         // leaking into another shows up there
         let mine = |p: &str| p == focus.name() || (focus == Focus::C06 && (p == "C02" || p == "C05"));
-        for f in w.fails.iter().filter(|f| mine(&f.0)) {
+        // (`eos-not-equal` is `eof-before-data` under its C02 name: reported once under C06)
+        for f in w.fails.iter().filter(|f| mine(&f.0) && !(focus == Focus::C06 && f.1.starts_with("eos-not-equal"))) {
             let key = f.1.clone();
             let small = shrink_list(lines[2..].to_vec(), |cand| {
                 let mut l = lines[..2].to_vec();
